@@ -66,6 +66,21 @@ def sweep_check(chk, wsname, structs, ops, profile, full_w=8, full_n=16, oob=Fal
     return rep
 
 
+def selfov_frame_check(chk, tier, prof, kinds=""):
+    """range lists that name a bit twice: the macro accepts them and no property fixes the value they hold, but the set of bits such a
+    field names is determined - writes must leave every other bit alone, must not panic, and set_ must agree with with_"""
+    so = sets.selfoverlap_structs(tier)
+    ws = build_set(chk, f"selfov-{tier}", so, prof)
+    if ws is None:
+        return
+    args = ['--ops', 'all', '--full-n', 16, '--full-w', 8, '--panic-only', 1]
+    if kinds:
+        args += ['--kinds', kinds]
+    rep = B.run(ws, prof, 'sweep', args, out_name=f"report-{chk.pid}-selfov-{prof}.json")
+    chk.add_report(rep, f"sweep:selfoverlap:{prof}")
+    chk.bounds.append("range lists naming a bit twice (accepted declarations, values undetermined): every write leaves the bits outside the named set unchanged, no panic, set_ == with_")
+
+
 def c01(tier):
     chk = core.Check('C01', tier)
     prof = profile_for(tier)
@@ -104,6 +119,7 @@ def c02(tier):
     acc = optional_accepted(chk, 'quick')
     if acc:
         sweep_check(chk, "optional-quick", acc, 'put', prof, full_w=8)
+    selfov_frame_check(chk, tier, prof)
     return chk.finish()
 
 
@@ -115,6 +131,7 @@ def c03(tier):
     sweep_check(chk, f"arr-{tier}", sets.arr_set(tier), 'all', prof, full_w=fw, oob=True)
     sweep_check(chk, f"nc-{tier}", sets.nc_set(tier), 'all', prof, full_w=fw, oob=True, families=['NCARR'])
     chk.bounds.append("arrays of multi-range elements (NCARR family, incl. lists not starting at bit 0 and interleaving elements)")
+    selfov_frame_check(chk, tier, prof)
     # enum / Option<enum> / nested element types (shared build with C08)
     sweep_check(chk, f"custom-{tier}", sets.custom_set(tier), 'all', prof, full_w=fw, oob=True,
                 families=['CUSTEXARR', 'CUSTOPTARR', 'CUSTNESTARR', 'CUSTEXNCARR', 'CUSTOPTNCARR', 'CUSTNESTNCARR'])
@@ -152,6 +169,7 @@ def c05(tier):
     if wsb:
         chk.add_report(B.run(wsb, prof, 'builder', ['--full-w', 8, '--cap', 65536], out_name=f"report-C05-builder-{prof}.json"), f"builder:signed:{prof}")
     chk.bounds.append("signed fields written through the builder (arrays, scalars, multi-range; with and without default)")
+    selfov_frame_check(chk, tier, prof, kinds='i')
     chk.bounds.append("iN fields: dedicated SIGNED machines (every position on N<=24, boundary positions above; arrays; multi-range) "
                       "plus the signed members of the CONTIG/ARR/NC families; all 2^8 patterns for i8 (thorough: all 2^16 for i16), AV otherwise")
     return chk.finish()
@@ -437,6 +455,7 @@ def c12(tier):
     acc = optional_accepted(chk, 'quick')
     if acc:
         sweep_check(chk, "optional-quick", acc, 'all', prof, full_w=8)
+    selfov_frame_check(chk, tier, prof)
     P = "no_panic,raw_is_shadow,getters_are_shadow"
     rep2, pm = product_run_named(chk, ws, prof, [s.name for s in structs if s.n <= 12], depth=0, values='full', full_n=12, label="fixedpoint", props=P)
     # cross-check of the two engines on N<=12: both must have seen exactly 2^N states per machine
